@@ -231,12 +231,12 @@ def run_harness(binpath, mode_args, outdir, timeout=1500):
     return rc == 0, out
 
 
-def evaluate_dir(outdir):
+def evaluate_dir(outdir, workers=16):
     """Evaluate every shard in outdir. Returns (verdicts, errors) where verdicts
     is a list of dicts with shard, index, history."""
     meta = json.load(open(os.path.join(outdir, "meta.json")))
     verdicts, errors = [], []
-    with cf.ThreadPoolExecutor(max_workers=16) as ex:
+    with cf.ThreadPoolExecutor(max_workers=workers) as ex:
         futs = {ex.submit(eval_cases, outdir, s): s for s in meta["shards"]}
         for fut in cf.as_completed(futs):
             s = futs[fut]
@@ -476,7 +476,7 @@ def main(argv):
                         ok_, out_ = run_harness(binpath, a, d, timeout=h.get("timeout", 1500))
                         if not ok_:
                             return None, out_
-                        return evaluate_dir(d), None
+                        return evaluate_dir(d, workers=max(2, 16 // procs)), None
                     with cf.ThreadPoolExecutor(max_workers=procs) as ex:
                         parts = list(ex.map(one, range(procs)))
                     bad = [o for (r_, o) in parts if r_ is None]
